@@ -189,6 +189,30 @@ var pureItems = []pureItem{
 			"if localFile == nil":                          {"Go.bind (if hasBasis then Go.Res.ok () else Go.Res.err) fun _ =>", nil, nil},
 			"if _, err := localFile.ReadAt(data, offset2)": {"Go.bind (Go.readAt basis offset2 (data.length : Int)) fun data =>", []string{"data"}, nil}},
 		results: []string{"written", "inp"}},
+	// peer-facing readers, input as a consumed byte list (C08: no input makes them panic)
+	{name: "recvIdLoop", file: "internal/receiver/uidlist.go", fn: "recvIdMapping1",
+		from: "for {", to: "for {",
+		params: []pvar{{"inp", "[]byte"}, {"out", "[]out"}}, fuel: []string{"inp.length + 1"},
+		replace: map[string]repl{
+			"id, err := rt.Conn.ReadInt32()":                 {"Go.bind (Go.readI32 inp) fun (id, inp) =>", []string{"inp"}, []pvar{{"id", "int32"}}},
+			"length, err := rt.Conn.ReadByte()":              {"Go.bind (Go.readByte inp) fun (length, inp) =>", []string{"inp"}, []pvar{{"length", "byte"}}},
+			"if _, err := io.ReadFull(rt.Conn.Reader, name)": {"Go.bind (Go.readFull inp (name.length : Int)) fun (name, inp) =>", []string{"inp"}, nil},
+			"idMapping[id] = mapping{":                       {"let out := out ++ [Go.Out.i32 id, Go.Out.bytes name];", []string{"out"}, nil}},
+		results: []string{"out", "inp"}},
+	{name: "recvFilterLoop", file: "internal/sender/exclude.go", fn: "RecvFilterList",
+		from: "for {", to: "for {",
+		params: []pvar{{"inp", "[]byte"}, {"out", "[]out"}}, fuel: []string{"inp.length + 1"},
+		replace: map[string]repl{
+			"length, err := c.ReadInt32()":             {"Go.bind (Go.readI32 inp) fun (length, inp) =>", []string{"inp"}, []pvar{{"length", "int32"}}},
+			"if _, err := io.ReadFull(c.Reader, line)": {"Go.bind (Go.readFull inp (line.length : Int)) fun (line, inp) =>", []string{"inp"}, nil},
+			"fr, err := parseFilter(string(line))":     {"let out := out ++ [Go.Out.bytes line];", []string{"out"}, nil}},
+		drop:    []string{"l.addRule(fr)", "if fr.flag&filtruleWild != 0", "if fr.flag&filtruleClearList != 0"},
+		results: []string{"out", "inp"}},
+	{name: "ReadMsg", file: "internal/rsyncwire/wire.go", fn: "ReadMsg",
+		dropParams: []string{"w"}, extra: []pvar{{"inp", "[]byte"}}, extraResults: []string{"inp"},
+		replace: map[string]repl{
+			"if err := binary.Read(w.Reader, binary.LittleEndian, &header)": {"Go.bind (Go.readU32 inp) fun (header, inp) =>", []string{"header", "inp"}, nil},
+			"if _, err := io.ReadFull(w.Reader, p)":                         {"Go.bind (Go.readFull inp (p.length : Int)) fun (p, inp) =>", []string{"p", "inp"}, nil}}},
 	// wire: multiplex frame header, and its decoding
 	{name: "muxHeader", file: "internal/rsyncwire/wire.go", fn: "WriteMsg",
 		from: "header := uint32(mplexBase+tag)<<24 | uint32(len(p))", to: "header := uint32(mplexBase+tag)<<24 | uint32(len(p))",
